@@ -66,7 +66,7 @@ func c06Specs() []refdb.AggSpec {
 		for _, f := range []string{"sum", "min", "max", "avg"} {
 			res = append(res, refdb.AggSpec{Func: f, Field: "v", Interval: iv}, refdb.AggSpec{Func: f, Field: "v", GroupBy: "g", Interval: iv})
 		}
-		for _, q := range [][]float64{{0.5}, {0, 1}, {0.25, 0.9}} {
+		for _, q := range [][]float64{{0.5}, {0, 1}, {0.25, 0.9}, {0, 0.5, 1}, {0.5, 1}} { // 0 and 1 are answered from min / max, inner ones from the samples
 			res = append(res, refdb.AggSpec{Func: "quantile", Field: "v", Interval: iv, Quantiles: q}, refdb.AggSpec{Func: "quantile", Field: "v", GroupBy: "g", Interval: iv, Quantiles: q})
 		}
 	}
@@ -439,7 +439,7 @@ func TestVerifC06(t *testing.T) {
 	c06QuantileBorder(r)
 	ev := r.Get("evaluations")
 	r.Finish(t, "model_checking",
-		"corpora: every sequence of <=2 docs over group{absent,g1,g2} x value{absent,1,-2,0.5,1e1,3} x 3 timestamps, n=3 over a reduced alphabet (thorough: larger + n=4); every set partition into <=3 fractions; ONE multi-aggregation request with 38 specs (count / sum,min,max,avg / 3 quantile lists, with and without group, interval 0 and 2; unique; count by the numeric field) + histogram intervals {1,2,5}, 2 queries, over the full time range and over two ranges that cut the corpus; every merge tree of the per-fraction partial results (all permutations, flat, (ab)c, a(bc), incremental accumulator) judged against values computed by refdb from the documents; a thinned set again through Ingestor.Search over two in-process shards (store<->proxy conversion); 8096/8097-sample quantile border",
+		"corpora: every sequence of <=2 docs over group{absent,g1,g2} x value{absent,1,-2,0.5,1e1,3} x 3 timestamps, n=3 over a reduced alphabet (thorough: larger + n=4); every set partition into <=3 fractions; ONE multi-aggregation request with 46 specs (count / sum,min,max,avg / 5 quantile lists - pure min/max, inner, and mixed ones, with and without group, interval 0 and 2; unique; count by the numeric field) + histogram intervals {1,2,5}, 2 queries, over the full time range and over two ranges that cut the corpus; every merge tree of the per-fraction partial results (all permutations, flat, (ab)c, a(bc), incremental accumulator) judged against values computed by refdb from the documents; a thinned set again through Ingestor.Search over two in-process shards (store<->proxy conversion); 8096/8097-sample quantile border",
 		map[string]any{
 			"states":                        r.Get("corpora") + r.Get("proxy_corpora"),
 			"transitions":                   ev,
